@@ -454,7 +454,8 @@ def p_objective_value(a):
 
 
 def p_weighted_value(a):
-    o = OBJ.MaximizeSmallestWeightedSum(list(a["weights"]))
+    sc = a.get("wscale", 1)       # weights are w/sc (sc a power of two: exactly representable fractions such as 0.25, 0.5, 1.5)
+    o = OBJ.MaximizeSmallestWeightedSum([w / sc for w in a["weights"]] if sc != 1 else list(a["weights"]))
     v = o.value_to_minimize(seq_of(a["sums"], a.get("kind", "list")), are_sums_in_ascending_order=bool(a["sorted"]))
     return {"float": float(v).hex()}
 
